@@ -36,6 +36,7 @@ class MinMax(LibFn):
     def __init__(self, script_name, qual, kind):
         super().__init__(script_name, qual, None, None, minmax_sem(kind), maxargs=0)
         self.kind = kind
+        self.sample_args = 3
 
     def axioms(self, K):
         return [(f'cmp-lemma{ix}', f) for ix, f in enumerate(cmp_axioms(K.heap.term()))]
@@ -65,17 +66,23 @@ class MinMax(LibFn):
             H = h.term()
             ref = V.lref(K.term(0))
             res = L.term('result')
-            first = L.ctx.truthy(L.v('is_first'))
-            first = z3.BoolVal(first) if isinstance(first, bool) else first
+            # the flag is an incidental temporary of the current code: its clause is stated only while the local exists
+            flag = []
+            if L.has('is_first'):
+                first = L.ctx.truthy(L.v('is_first'))
+                first = z3.BoolVal(first) if isinstance(first, bool) else first
+                flag = [('first-flag', first == (L.k == 0))]
             i = z3.Int('i!mmi')
             rel = (lambda a, b: sp.CMP(H, a, b) <= 0) if kind == 'min' else (lambda a, b: sp.CMP(H, a, b) >= 0)
-            return [('first-flag', first == (L.k == 0)),
+            return flag + [
                     ('index-range', z3.And(L.k >= 0, L.k <= h.llen(ref))),
                     ('null-before-first', z3.Implies(L.k == 0, res == VNone)),
                     ('result-is-an-argument', z3.Implies(L.k > 0, z3.Exists([i], z3.And(i >= 0, i < L.k, res == h.lget(ref, i))))),
                     ('extremal-so-far', z3.ForAll([i], z3.Implies(z3.And(i >= 0, i < L.k), rel(res, h.lget(ref, i)))))]
         return {(self.qual, 0): LoopSpec(inv, heap='unchanged', header='values')}
 
+
+MinMax.replay_prepare = sp.replay_prepare_cmp
 
 LIB = [
     LibFn('systemCompare', 'library._system_compare', '_SYSTEM_COMPARE_ARGS', None, system_compare),
@@ -257,3 +264,89 @@ LIB += [
     ArraySortDefault(),
     ObjectNew(),
 ]
+
+
+IndexOf.replay_prepare = sp.replay_prepare_cmp
+ArraySortDefault.replay_prepare = sp.replay_prepare_cmp
+
+
+# ---------------------------------------------------------------------------------------------
+# arraySort(array, compareFn): the comparison callbacks (C09: callbacks from library functions run under the caller's
+# options, so their statements are counted, and a failing callback aborts the sort)
+# ---------------------------------------------------------------------------------------------
+
+def _sort_with_callbacks(ip, lst, kwargs):
+    """Assumed contract of list.sort(key=cmp_to_key(f)) for a closure f: when the list has two or more elements f is
+    called on two of them (one symbolic call stands for every call: the clauses below are stated per call); an exception
+    raised by f leaves sort (CPython propagates it); afterwards the list holds an unspecified rearrangement."""
+    from pyvc.interp import OutOfReach, Obj, S
+    from pyvc.models_calls import used
+    ctx = ip.ctx
+    key = kwargs.get('key')
+    if not (isinstance(key, Obj) and key.kind == 'cmpkey' and isinstance(key.f['fn'], Obj) and key.f['fn'].kind in ('lambda', 'closure')):
+        raise OutOfReach('list.sort: the key is not cmp_to_key(<closure>)')
+    used('list.sort(key=cmp_to_key(f)) with a closure f: f is called on pairs of elements; an exception from f propagates; '
+         'the list ends up as an unspecified rearrangement (order under a script callback is not specified here)')
+    h = ctx.heap
+    ref = z3.simplify(V.lref(lst.t))
+    n = h.llen(ref)
+    if ctx.branch(n >= 2):
+        i, k = ctx.fresh('sort_i', Int), ctx.fresh('sort_k', Int)
+        ctx.assume(z3.And(i >= 0, i < n, k >= 0, k < n, i != k))
+        ctx.ghost['sort_pair'] = (h.lget(ref, i), h.lget(ref, k))
+        ip.call(key.f['fn'], [S(h.lget(ref, i)), S(h.lget(ref, k))], {}, None, None)
+        h = ctx.heap
+        els = ctx.fresh('sorted_els', z3.ArraySort(Int, V))
+        j = z3.Int('j!srt')
+        from pyvc.core import wf_value
+        ctx.assume(z3.ForAll([j], z3.Implies(z3.And(j >= 0, j < h.llen(ref)), wf_value(h, z3.Select(els, j)))))
+        ctx.heap = h.lsetall(ref, h.llen(ref), els)
+    from pyvc.interp import C
+    return C(None)
+
+
+class ArraySortCustom(LibFn):
+    """arraySort(array, compareFn)"""
+    hooks = {'list_sort': _sort_with_callbacks}
+
+    def __init__(self):
+        super().__init__('arraySort', 'library._array_sort', '_ARRAY_SORT_ARGS', None, lambda spx: {'ret': ('any',)})
+        from .runtime_c import host_callable_model
+        self.callable_model = host_callable_model
+
+    def pre(self, K):
+        spx, valid = self.view(K)
+        return super().pre(K) + [('custom-order', z3.And(valid, is_func(spx.a[1])))]
+
+    def post(self, K, out):
+        spx, valid = self.view(K)
+        events = [e for e in K.ctx.ghost.get('events', []) if e['kind'] == 'callable']
+        obs = []
+        for ix, e in enumerate(events):
+            at = e['arg_terms']
+            pair = K.ctx.ghost.get('sort_pair')
+            hb = e['heap_before']
+            ok_args = z3.BoolVal(False)
+            if len(at) == 2 and at[0] is not None and at[1] is not None and pair is not None:
+                lr = V.lref(at[0])
+                ok_args = z3.And(is_list(at[0]), hb.llen(lr) == 2, hb.lget(lr, 0) == pair[0], hb.lget(lr, 1) == pair[1])
+                obs.append((f'C09.callback{ix}-runs-under-the-callers-options', at[1] == K.term(1)))
+            else:
+                obs.append((f'C09.callback{ix}-runs-under-the-callers-options', z3.BoolVal(False)))
+            obs.append((f'callback{ix}-compares-two-elements', ok_args))
+            oc = e.get('outcome')
+            if oc is not None and oc.kind == 'raise':
+                same = out.kind == 'raise' and out.exc is oc.exc
+                obs.append((f'C09.failing-callback{ix}-aborts-the-sort', z3.BoolVal(bool(same))))
+        if out.kind == 'return':
+            res = K.ctx.to_term(out.value)
+            obs.append(('returns-the-array', res == spx.a[0]))
+            obs.append(('callback-was-consulted', z3.Implies(K.heap.llen(V.lref(spx.a[0])) >= 2, z3.BoolVal(len(events) >= 1))))
+        else:
+            obs.append(('C09.fails-only-through-the-callback',
+                        z3.BoolVal(any(e.get('outcome') is not None and e['outcome'].kind == 'raise' and e['outcome'].exc is out.exc
+                                       for e in events))))
+        return obs
+
+
+ARRAY_SORT_CUSTOM = ArraySortCustom()
